@@ -726,82 +726,141 @@ impl Xot {
     }
 
     // returns true if any declaration was removed
-    fn deduplicate_namespaces_pass(&mut self, node: Node) -> bool {
-        let mut fullname_serializer = FullnameSerializer::new(self, vec![]);
-        let mut fixup_nodes = Vec::new();
-        let mut deduplicate_tracker = DeduplicateTracker::new();
-        // determine nodes we need to fix up
-        for edge in self.traverse(node) {
-            match edge {
-                NodeEdge::Start(node) => {
-                    if self.is_element(node) {
-                        // an attribute in a namespace *has* to have a non-empty
-                        // prefix. This means we cannot remove a prefix if that
-                        // prefix overlaps with a previously defined default
-                        // namespace: that's fine for elements which fall
-                        // in the default namespace, but not for attributes.
-                        // The tracker keeps track of all this.
-                        deduplicate_tracker.push(self, node);
-                        // we don't need to remove the fixed up prefixes because
-                        // as duplicates they will definitely exist.
-                        // In fact if we remove them first the push will fail to create
-                        // a new entry in the namespace stack, as prefixes can become empty
-                        fullname_serializer.push(self.namespace_declarations(node));
+    fn deduplicate_namespaces_pass(&mut self, top: Node) -> bool {
+        // A declaration is superfluous if its namespace is already bound by
+        // the enclosing elements (inside the subtree we are deduplicating) and
+        // every name below it that is in this namespace can still be written
+        // without it: an element name needs some binding for the namespace, an
+        // attribute name a binding with a non-empty prefix, and a binding only
+        // counts where it is not shadowed.
+        let elements = self
+            .descendants(top)
+            .filter(|node| self.is_element(*node))
+            .collect::<Vec<_>>();
+        let mut removed: HashSet<Node> = HashSet::default();
+        for element in elements {
+            if element == top {
+                // nothing encloses the declarations of the top element
+                continue;
+            }
+            let parent = match self.parent(element) {
+                Some(parent) => parent,
+                None => continue,
+            };
+            let declarations = self.namespaces(element).nodes().collect::<Vec<_>>();
+            for declaration in declarations {
+                let (prefix_id, namespace_id) = match self.namespace_node(declaration) {
+                    Some(namespace) => (namespace.prefix(), namespace.namespace()),
+                    None => continue,
+                };
+                // whether a default namespace is in scope depends on all
+                // ancestors, also those outside the subtree we deduplicate
+                let scope_top = if namespace_id == self.no_namespace() {
+                    self.root(top)
+                } else {
+                    top
+                };
+                let outer = self.bindings_within(scope_top, parent, &removed);
+                let redundant = if namespace_id == self.no_namespace() {
+                    // xmlns="" is superfluous if there is no default namespace
+                    // to undeclare
+                    prefix_id == self.empty_prefix()
+                        && !outer.iter().any(|(prefix, _)| *prefix == self.empty_prefix())
+                } else {
+                    outer.iter().any(|(_, namespace)| *namespace == namespace_id)
+                };
+                if !redundant {
+                    continue;
+                }
+                removed.insert(declaration);
+                if !self.names_resolve_within(scope_top, element, namespace_id, &removed) {
+                    // some name still needs it
+                    removed.remove(&declaration);
+                }
+            }
+        }
+        let any_removed = !removed.is_empty();
+        for declaration in removed {
+            self.remove(declaration).unwrap();
+        }
+        any_removed
+    }
+
+    // The prefix bindings in scope at `node`, taking into account only the
+    // declarations on `node` and its ancestors up to and including `top`, and
+    // disregarding the namespace nodes in `skip`. The nearest declaration of
+    // a prefix wins; xmlns="" removes the default binding.
+    fn bindings_within(
+        &self,
+        top: Node,
+        node: Node,
+        skip: &HashSet<Node>,
+    ) -> Vec<(PrefixId, NamespaceId)> {
+        let mut seen: Vec<PrefixId> = Vec::new();
+        let mut bindings = Vec::new();
+        for ancestor in self.ancestors(node) {
+            for declaration in self.namespaces(ancestor).nodes() {
+                if skip.contains(&declaration) {
+                    continue;
+                }
+                let namespace = self.namespace_node(declaration).unwrap();
+                if seen.contains(&namespace.prefix()) {
+                    continue;
+                }
+                seen.push(namespace.prefix());
+                if namespace.namespace() != self.no_namespace() {
+                    bindings.push((namespace.prefix(), namespace.namespace()));
+                }
+            }
+            if ancestor == top {
+                break;
+            }
+        }
+        bindings
+    }
+
+    // Can every element and attribute name in the subtree of `element` that
+    // is in `namespace_id` be written with the bindings that remain when the
+    // namespace nodes in `skip` are disregarded? (For no namespace: is every
+    // element without a namespace still outside any default namespace?)
+    fn names_resolve_within(
+        &self,
+        top: Node,
+        element: Node,
+        namespace_id: NamespaceId,
+        skip: &HashSet<Node>,
+    ) -> bool {
+        for descendant in self.descendants(element) {
+            let name = match self.element(descendant) {
+                Some(e) => e.name(),
+                None => continue,
+            };
+            let bindings = self.bindings_within(top, descendant, skip);
+            if self.namespace_for_name(name) == namespace_id {
+                let resolves = if namespace_id == self.no_namespace() {
+                    !bindings
+                        .iter()
+                        .any(|(prefix, _)| *prefix == self.empty_prefix())
+                } else {
+                    bindings.iter().any(|(_, namespace)| *namespace == namespace_id)
+                };
+                if !resolves {
+                    return false;
+                }
+            }
+            if namespace_id != self.no_namespace() {
+                for attribute_name in self.attributes(descendant).keys() {
+                    if self.namespace_for_name(attribute_name) == namespace_id
+                        && !bindings.iter().any(|(prefix, namespace)| {
+                            *namespace == namespace_id && *prefix != self.empty_prefix()
+                        })
+                    {
+                        return false;
                     }
                 }
-                NodeEdge::End(node) => {
-                    if self.is_element(node) {
-                        // to_prefix is only used to determine whether to pop
-                        // so should be okay to send here
-                        fullname_serializer.pop(self.has_namespace_declarations(node));
-                        deduplicate_tracker.pop();
-                        // if we already know a namespace, remove it
-                        // we do this at the end so the deduplicate tracker
-                        // has had a change to do its work for sub-elements
-                        let namespaces = self.namespaces(node);
-                        let to_remove = namespaces
-                            .iter()
-                            .filter_map(|(_, namespace_id)| {
-                                if fullname_serializer.is_namespace_known(*namespace_id)
-                                    && deduplicate_tracker.is_safe_to_remove(*namespace_id)
-                                {
-                                    Some(*namespace_id)
-                                } else {
-                                    None
-                                }
-                            })
-                            .collect::<Vec<_>>();
-                        if !to_remove.is_empty() {
-                            fixup_nodes.push((node, to_remove.clone()));
-                        }
-                    }
-                }
             }
         }
-        // now actually fix up the nodes, removing superfluous namespaces
-        // TODO: this whole thing is a bit a multi-step mess. Perhaps
-        // direct namespace node access would help.
-        let mut fixup_prefixes = Vec::new();
-        for (node, to_remove) in fixup_nodes {
-            let namespaces = self.namespaces(node);
-            for namespace_id in to_remove {
-                let prefixes_to_remove = namespaces
-                    .iter()
-                    .filter(|(_, ns)| **ns == namespace_id)
-                    .map(|(prefix, _)| prefix);
-                fixup_prefixes.push((node, prefixes_to_remove.collect::<Vec<_>>()));
-            }
-        }
-        let mut removed = false;
-        for (node, prefix) in fixup_prefixes {
-            let mut namespaces = self.namespaces_mut(node);
-            for prefix in prefix {
-                if namespaces.remove(prefix).is_some() {
-                    removed = true;
-                }
-            }
-        }
-        removed
+        true
     }
 
     pub(crate) fn prefixes_in_scope(&self, node: Node) -> Prefixes {
@@ -862,56 +921,6 @@ impl Xot {
         let mut prefixes = Prefixes::new();
         prefixes.insert(self.xml_prefix_id, self.xml_namespace_id);
         prefixes
-    }
-}
-
-struct DeduplicateTracker {
-    stack: Vec<DeduplicateTrackerEntry>,
-}
-
-struct DeduplicateTrackerEntry {
-    default_namespace: Option<NamespaceId>,
-    in_use_by_attribute: bool,
-}
-
-impl DeduplicateTracker {
-    fn new() -> Self {
-        Self { stack: Vec::new() }
-    }
-
-    fn push(&mut self, xot: &Xot, node: Node) {
-        let namespaces = xot.namespaces(node);
-        let default_namespace = namespaces.get(xot.empty_prefix());
-        self.stack.push(DeduplicateTrackerEntry {
-            default_namespace: default_namespace.copied(),
-            in_use_by_attribute: false,
-        });
-        for attribute_name in xot.attributes(node).keys() {
-            self.attribute_name(xot, attribute_name);
-        }
-    }
-
-    fn pop(&mut self) {
-        self.stack.pop();
-    }
-
-    fn attribute_name(&mut self, xot: &Xot, name: NameId) {
-        let namespace = xot.namespace_for_name(name);
-        for entry in self.stack.iter_mut().rev() {
-            if entry.default_namespace == Some(namespace) {
-                entry.in_use_by_attribute = true;
-                return;
-            }
-        }
-    }
-
-    fn is_safe_to_remove(&self, namespace: NamespaceId) -> bool {
-        for entry in self.stack.iter().rev() {
-            if entry.default_namespace == Some(namespace) {
-                return !entry.in_use_by_attribute;
-            }
-        }
-        true
     }
 }
 
